@@ -53,8 +53,29 @@ def text_docs():
                                         '<textPath xlink:href="#curve">Visible path</textPath></text>' % (CURVE, FONT)),
         ('textpath-and-text', tp + '<text x="10" y="180"%s font-size="18" fill="navy" text-decoration="underline">flat</text>'
                                    '<text%s font-size="20" fill="black"><textPath xlink:href="#curve">and curved</textPath></text>' % (FONT, FONT)),
+        # text-anchor on chunks WITHOUT an explicit x (seeded C08-16): positioned by y only, not positioned at all, on a path
+        ('anchor-middle-y-only', '<g transform="translate(100 0)"><text y="70"%s font-size="26" fill="black" text-anchor="middle">Middle</text></g>' % FONT),
+        ('anchor-end-unpositioned', '<g transform="translate(190 90)"><text%s font-size="26" fill="black" text-anchor="end">The end</text></g>' % FONT),
+        ('anchor-end-y-only-tspans', '<g transform="translate(190 0)"><text y="60"%s font-size="22" fill="black" text-anchor="end">ab<tspan y="120" '
+                                     'text-anchor="middle">second</tspan></text></g>' % FONT),
+        ('anchor-middle-textpath-startoffset', tp + '<text%s font-size="18" fill="black" text-anchor="middle">'
+                                                    '<textPath xlink:href="#curve" startOffset="90">mid</textPath></text>' % FONT),
+        ('anchor-end-textpath', tp + '<text%s font-size="18" fill="black" text-anchor="end">'
+                                     '<textPath xlink:href="#curve" startOffset="150">at the end</textPath></text>' % FONT),
+        ('anchor-end-with-x', '<text x="190" y="100"%s font-size="26" fill="black" text-anchor="end">With x</text>' % FONT),
     ]
     return [(lab, _doc(b)) for lab, b in out]
+
+
+def clip_text_docs():
+    """text inside a clipPath, without and with a transform (the latter is one more group level in the tree: F-candidate
+    clip-text-transform-dropped), and a shape with a transform next to it (control)"""
+    body = ('<defs><clipPath id="c1">%s</clipPath></defs><rect width="200" height="200" fill="teal" clip-path="url(#c1)"/>')
+    t = '<text x="20" y="120"%s font-size="60"%s>Clip</text>'
+    return [('clip-text', _doc(body % (t % (FONT, '')))),
+            ('clip-text-transform', _doc(body % (t % (FONT, ' transform="translate(10 0)"')))),
+            ('clip-text-transform-and-shape', _doc(body % ('<circle cx="40" cy="40" r="30" transform="translate(20 10)"/>' +
+                                                           t % (FONT, ' transform="translate(10 20) scale(0.8)"'))))]
 
 
 # {prefix none / non-empty} x {preserve_text}
